@@ -211,19 +211,36 @@ def _run_history(case):
         kw["rotations"] = ((0, 0), (0, 0), (30, 30))
 
     def make():
-        return _cls(mname)(t0 if case["ntemp"] == 1 else [t0, t1], **kw)
+        # the model, and a quaternion buffer that the caller re-uses for successive molecules (overwritten in place)
+        return {"m": _cls(mname)(t0 if case["ntemp"] == 1 else [t0, t1], **kw), "q": quats["q1"].copy()}
 
     ops = []
     for qn, q in quats.items():
-        ops.append((f"score({qn})", lambda m, q=q: np.asarray(m.score(img, q, pos))))
-        ops.append((f"align({qn})", lambda m, q=q: (lambda r: [int(r.label), np.asarray(r.shift), np.asarray(r.quat), float(r.score)])(m.align(img, (1.5, 1.5, 1.5), q, pos))))
-        ops.append((f"landscape({qn})", lambda m, q=q: np.asarray(m.landscape(img, (1.0, 1.0, 1.0), q, pos))))
+        ops.append((f"score({qn})", lambda st, q=q: np.asarray(st["m"].score(img, q, pos))))
+        ops.append((f"align({qn})", lambda st, q=q: (lambda r: [int(r.label), np.asarray(r.shift), np.asarray(r.quat), float(r.score)])(st["m"].align(img, (1.5, 1.5, 1.5), q, pos))))
+        ops.append((f"landscape({qn})", lambda st, q=q: np.asarray(st["m"].landscape(img, (1.0, 1.0, 1.0), q, pos))))
         if qn != "qI":
-            ops.append((f"landscape({qn},upsample=2)", lambda m, q=q: np.asarray(m.landscape(img, (1.0, 1.0, 1.0), q, pos, upsample=2))))
+            ops.append((f"landscape({qn},upsample=2)", lambda st, q=q: np.asarray(st["m"].landscape(img, (1.0, 1.0, 1.0), q, pos, upsample=2))))
             if mname == "ZNCC" and case["ntemp"] == 1 and not case["rot"]:
-                ops.append((f"masked_difference({qn})", lambda m, q=q: np.asarray(m.masked_difference(img, q))))
-            ops.append((f"wedge({qn})", lambda m, q=q: np.asarray(m.get_missing_wedge_mask(q))))
+                ops.append((f"masked_difference({qn})", lambda st, q=q: np.asarray(st["m"].masked_difference(img, q))))
+            ops.append((f"wedge({qn})", lambda st, q=q: np.asarray(st["m"].get_missing_wedge_mask(q))))
+    ops.append(("score(buffer)", lambda st: np.asarray(st["m"].score(img, st["q"], pos))))
+    ops.append(("wedge(buffer)", lambda st: np.asarray(st["m"].get_missing_wedge_mask(st["q"]))))
+    ops.append(("align(buffer)", lambda st: (lambda r: [int(r.label), np.asarray(r.shift), float(r.score)])(st["m"].align(img, (1.5, 1.5, 1.5), st["q"], pos))))
+
+    def setbuf(qn):
+        def f(st):
+            st["q"][:] = quats[qn]
+        return f
+
+    mutators = [(f"buffer[:]={qn}", setbuf(qn)) for qn in ("q2", "qI", "q1")]
     res = history.explore(make, ops, case["depth"], atol=2e-5, rtol=1e-4)
+    # the re-used buffer needs observation - overwrite - observation: depth 3 on the small alphabet that touches it
+    res3 = history.explore(make, [o for o in ops if "buffer" in o[0]], 3, atol=2e-5, rtol=1e-4, mutators=mutators)
+    for k in ("sequences", "calls"):
+        res[k] += res3[k]
+    for k in ("failures", "errors", "nondeterministic", "raises_alone"):
+        res[k] = list(res[k]) + list(res3[k])
     if res["raises_alone"]:
         raise RuntimeError(f"harness: operations {res['raises_alone']} raise on a fresh model")
     viol, seen = [], set()
